@@ -5,9 +5,14 @@
    Conventions.  Accounts are integers; an account that was never written has no custody records
    and balance 0 (as an unknown address in the store).  Strings that are only ever compared
    (TargetAddress, NextController) are integer codes: -1 = "", -2 = a string that is not a bech32
-   address, i >= 0 = the bech32 string of account i.  One coin denomination (the default one).
+   address, i >= 0 = the bech32 string of account i.  Coin denominations are integers (0 = the
+   default one); coins are lists (denomination, amount) as sdk.Coins (sorted, positive).
+   The model is parameterised by a [variant]: the five places where the tree is known to be wrong and
+   for which a repair exists under /verif/fixes (C17-*.patch); the harness determines by probe
+   transactions which variant the tree implements.
    Nil-pointer dereferences, index-out-of-range and division by zero of the Go code are [Panic].
-   uint64 values are assumed below 2^63 (no wrap-around is modelled; the harness stays there). *)
+   uint64 values are assumed below 2^63 (no wrap-around is modelled; the harness stays there).
+   The decorator and the messages of a transaction are committed together or not at all. *)
 From Sekai Require Import Base.Prelude.
 
 Record settings := mkSet { s_en : bool; s_mode : Z; s_pwd : bool; s_wl : bool; s_lim : bool; s_key : string; s_next : Z }.
@@ -15,12 +20,25 @@ Record settings := mkSet { s_en : bool; s_mode : Z; s_pwd : bool; s_wl : bool; s
    key (already a digest), [k_next] NextAddress, [k_tgt] TargetAddress *)
 Record kp := mkKp { k_old : string; k_new : string; k_next : Z; k_tgt : Z }.
 (* a pooled transfer: MsgSend fields + Votes + Confirmed *)
-Record txr := mkTx { t_to : Z; t_amt : Z; t_pw : string; t_rew : list Z; t_votes : Z; t_conf : bool }.
+Definition coins := list (Z * Z).
+Record txr := mkTx { t_to : Z; t_amt : coins; t_pw : string; t_rew : coins; t_votes : Z; t_conf : bool }.
 Definition amap := list (Z * bool).            (* map[string]bool keyed by address *)
 Definition lmap := list (Z * (Z * string)).    (* map[denom]*CustodyLimit{Amount, Limit} *)
 Definition pmap := list (string * txr).        (* map[hash]*TransactionRecord *)
+Definition smap := list (Z * (Z * Z)).         (* map[denom]*CustodyStatus{Amount, Time} *)
 Record acct := mkAcct { a_set : option settings; a_cust : option amap; a_wl : option amap; a_lim : option lmap;
-                        a_pool : option pmap; a_bal : Z }.
+                        a_pool : option pmap; a_bal : coins; a_stat : option smap }.
+
+(* which of the repaired places the tree implements *)
+Record variant := mkV {
+  v_cust_only : bool;   (* Approve/Decline refuse a sender who is not a custodian of the target (C17-custodian-only-votes) *)
+  v_lower : bool;       (* the vote mark is keyed by the lower-cased hash, as the pool is (C17-vote-key-lowercase) *)
+  v_pwd : bool;         (* PasswordConfirm compares the password with the one of the request (C17-password-compared) *)
+  v_nilmap : bool;      (* adding to a stored empty map no longer panics (C17-empty-map-assignment) *)
+  v_limits : bool       (* the limit path of the decorator: no nil dereference, window enforced per coin (C17-limits-window) *)
+}.
+Definition v_tree0 : variant := mkV false false false false false.   (* the tree as first modelled *)
+Definition v_fixed : variant := mkV true true true true true.
 (* [marks]: the vote store, key (from, target, hash exactly as given in the message), value 1 / -1 *)
 Record state := mkSt { accts : list (Z * acct); marks : list (Z * Z * string * Z) }.
 
@@ -35,17 +53,17 @@ Inductive op :=
 | OAddLim (sg : Z) (d : Z) (amt : Z) (lim : string) (k : kp)
 | ORemLim (sg : Z) (d : Z) (k : kp)
 | ODropLim (sg : Z) (k : kp)
-| OSend (sg : Z) (to : Z) (amt : Z) (pw : string) (rew : list Z) (h : string)   (* h = hex sha256 of the tx bytes *)
+| OSend (sg : Z) (to : Z) (amt : coins) (pw : string) (rew : coins) (h : string)   (* h = hex sha256 of the tx bytes *)
 | OApprove (f : Z) (t : Z) (h : string)
 | ODecline (f : Z) (t : Z) (h : string)
 | OConfirm (f : Z) (t : Z) (h : string) (p : string) (ph : string)               (* p: password given, ph: its digest *)
-| OBank (sg : Z) (to : Z) (amt : Z)
-| OMulti (sg : Z) (to : Z) (amt : Z).
+| OBank (sg : Z) (to : Z) (amt : coins) (now : Z)                                 (* now: block time (unix seconds) *)
+| OMulti (sg : Z) (to : Z) (amt : coins).
 
 Definition signer (o : op) : Z :=
   match o with
   | OCreate sg _ _ | ODisable sg _ | ODrop sg _ | OAdd _ sg _ _ | ORem _ sg _ _ | ODropL _ sg _
-  | OAddLim sg _ _ _ _ | ORemLim sg _ _ | ODropLim sg _ | OSend sg _ _ _ _ _ | OBank sg _ _ | OMulti sg _ _ => sg
+  | OAddLim sg _ _ _ _ | ORemLim sg _ _ | ODropLim sg _ | OSend sg _ _ _ _ _ | OBank sg _ _ _ | OMulti sg _ _ => sg
   | OApprove f _ _ | ODecline f _ _ | OConfirm f _ _ _ _ => f
   end.
 
@@ -70,17 +88,18 @@ Definition mark_get (f t : Z) (h : string) (l : list (Z * Z * string * Z)) : opt
   match find (mark_eqb f t h) l with Some (_, _, _, v) => Some v | None => None end.
 
 (* ---------------------------------------------------------------- state access *)
-Definition empty_acct : acct := mkAcct None None None None None 0.
+Definition empty_acct : acct := mkAcct None None None None None [] None.
 Definition getA (s : state) (i : Z) : acct := match alist_get i (accts s) with Some a => a | None => empty_acct end.
 Definition setA (s : state) (i : Z) (a : acct) : state := mkSt ((i, a) :: accts s) (marks s).
 Definition add_mark (s : state) (f t : Z) (h : string) (v : Z) : state := mkSt (accts s) ((f, t, h, v) :: marks s).
 
-Definition with_set (a : acct) (v : option settings) := mkAcct v (a_cust a) (a_wl a) (a_lim a) (a_pool a) (a_bal a).
-Definition with_cust (a : acct) (v : option amap) := mkAcct (a_set a) v (a_wl a) (a_lim a) (a_pool a) (a_bal a).
-Definition with_wl (a : acct) (v : option amap) := mkAcct (a_set a) (a_cust a) v (a_lim a) (a_pool a) (a_bal a).
-Definition with_lim (a : acct) (v : option lmap) := mkAcct (a_set a) (a_cust a) (a_wl a) v (a_pool a) (a_bal a).
-Definition with_pool (a : acct) (v : option pmap) := mkAcct (a_set a) (a_cust a) (a_wl a) (a_lim a) v (a_bal a).
-Definition with_bal (a : acct) (v : Z) := mkAcct (a_set a) (a_cust a) (a_wl a) (a_lim a) (a_pool a) v.
+Definition with_set (a : acct) (v : option settings) := mkAcct v (a_cust a) (a_wl a) (a_lim a) (a_pool a) (a_bal a) (a_stat a).
+Definition with_cust (a : acct) (v : option amap) := mkAcct (a_set a) v (a_wl a) (a_lim a) (a_pool a) (a_bal a) (a_stat a).
+Definition with_wl (a : acct) (v : option amap) := mkAcct (a_set a) (a_cust a) v (a_lim a) (a_pool a) (a_bal a) (a_stat a).
+Definition with_lim (a : acct) (v : option lmap) := mkAcct (a_set a) (a_cust a) (a_wl a) v (a_pool a) (a_bal a) (a_stat a).
+Definition with_pool (a : acct) (v : option pmap) := mkAcct (a_set a) (a_cust a) (a_wl a) (a_lim a) v (a_bal a) (a_stat a).
+Definition with_bal (a : acct) (v : coins) := mkAcct (a_set a) (a_cust a) (a_wl a) (a_lim a) (a_pool a) v (a_stat a).
+Definition with_stat (a : acct) (v : option smap) := mkAcct (a_set a) (a_cust a) (a_wl a) (a_lim a) (a_pool a) (a_bal a) v.
 Definition lst_of (w : lst) (a : acct) : option amap := match w with LCust => a_cust a | LWl => a_wl a end.
 Definition with_lst (w : lst) (a : acct) (v : option amap) : acct := match w with LCust => with_cust a v | LWl => with_wl a v end.
 
@@ -89,19 +108,41 @@ Definition set_keys (st : settings) (key : string) (next : Z) := mkSet (s_en st)
 Definition tx_votes (t : txr) (v : Z) := mkTx (t_to t) (t_amt t) (t_pw t) (t_rew t) v (t_conf t).
 Definition tx_conf (t : txr) (b : bool) := mkTx (t_to t) (t_amt t) (t_pw t) (t_rew t) (t_votes t) b.
 
-(* bank SendCoins: fails on insufficient funds; a zero amount is the empty coin set (no-op) *)
-Definition send (s : state) (from to amt : Z) : outcome state :=
+(* balances: amount of a denomination (0 when absent) *)
+Definition bal_get (d : Z) (b : coins) : Z := match alist_get d b with Some x => x | None => 0 end.
+Definition can_pay (b cs : coins) : bool := forallb (fun c => snd c <=? bal_get (fst c) b) cs.
+Definition bal_sub (b cs : coins) : coins := fold_left (fun b c => map_set (fst c) (bal_get (fst c) b - snd c) b) cs b.
+Definition bal_add (b cs : coins) : coins := fold_left (fun b c => map_set (fst c) (bal_get (fst c) b + snd c) b) cs b.
+(* sdk.Coins.Validate + IsAllPositive: sorted by denomination without duplicates, amounts positive *)
+Fixpoint coins_sorted (lo : Z) (cs : coins) : bool :=
+  match cs with [] => true | (d, a) :: r => (lo <? d) && (0 <? a) && coins_sorted d r end.
+Definition coins_ok (cs : coins) : bool := match cs with [] => false | _ => coins_sorted (-1) cs end.
+(* sdk.NewCoins(one coin): a zero coin is dropped *)
+Definition one_coin (d a : Z) : coins := if a =? 0 then [] else [(d, a)].
+
+(* sdk.Coins.IsValid: empty, or sorted without duplicates and all positive *)
+Definition coins_valid (cs : coins) : bool := match cs with [] => true | _ => coins_sorted (-1) cs end.
+
+(* bank SendCoins: refuses invalid coins; fails when any coin exceeds the balance; nothing moves then *)
+Definition send (s : state) (from to : Z) (cs : coins) : outcome state :=
   let a := getA s from in
-  if a_bal a <? amt then Err "insufficient funds" else
-  let s1 := setA s from (with_bal a (a_bal a - amt)) in
-  let b := getA s1 to in
-  Ok (setA s1 to (with_bal b (a_bal b + amt))).
+  if negb (coins_valid cs) then Err "invalid coins" else
+  if can_pay (a_bal a) cs then
+    let s1 := setA s from (with_bal a (bal_sub (a_bal a) cs)) in
+    let b := getA s1 to in
+    Ok (setA s1 to (with_bal b (bal_add (a_bal b) cs)))
+  else Err "insufficient funds".
+
+(* time.ParseDuration on the strings the harness uses: whole seconds; None = parse error *)
+Definition dur_s (l : string) : option Z :=
+  if String.eqb l "1h" then Some 3600 else if String.eqb l "90s" then Some 90 else if String.eqb l "0s" then Some 0 else None.
 
 (* AddToCustodyPool: the pool record is stored as it is (a pool whose map became empty is read back
    as a record with an empty map, as observed in the differential run) *)
 Definition store_pool (s : state) (t : Z) (p : pmap) : state := setA s t (with_pool (getA s t) (Some p)).
 
 Section Model.
+Variable v : variant.
 (* sha256 + hex of the OldKey; nothing is assumed about it *)
 Variable H : string -> string.
 (* network property MinCustodyReward *)
@@ -122,16 +163,41 @@ Definition ante_switch (sg : acct) (st : settings) (o : op) : outcome unit :=
       | None => Panic "nil custodians"
       | Some c => match rew with
                   | [] => Err "no reward"
-                  | r0 :: _ => if r0 <? minrew * map_len c then Err "too small reward" else Ok tt
+                  | (rd, r0) :: _ => if r0 <? minrew * map_len c then Err "too small reward"
+                                     else if rd =? 0 then Ok tt else Err "wrong reward denom"
                   end
       end
   (* no arm: disable, drop, password confirm, bank messages *)
-  | ODisable _ _ | ODrop _ _ | OConfirm _ _ _ _ _ | OBank _ _ _ | OMulti _ _ _ => Ok tt
+  | ODisable _ _ | ODrop _ _ | OConfirm _ _ _ _ _ | OBank _ _ _ _ | OMulti _ _ _ => Ok tt
   end.
 
-Definition ante_bank (sg : acct) (to : Z) : outcome unit :=
+(* the repaired limit path: per coin of the message, a window of the limit's duration starting at
+   the first send; the sum sent inside the window may not exceed the limit's amount *)
+Fixpoint limits_fold (lims : lmap) (now : Z) (cs : coins) (st : smap) : outcome smap :=
+  match cs with
+  | [] => Ok st
+  | (d, amt) :: r =>
+      match alist_get d lims with
+      | None => limits_fold lims now r st
+      | Some (cap, lim) =>
+          if (cap =? 0) && String.eqb lim "" then limits_fold lims now r st      (* a removed limit *)
+          else match dur_s lim with
+               | None => Err "limit reached"
+               | Some w =>
+                   if w <=? 0 then Err "limit reached" else
+                   let '(spent, start) := match alist_get d st with
+                                          | Some (a, t) => if now - t <? w then (a, t) else (0, now)
+                                          | None => (0, now) end in
+                   if cap <? spent + amt then Err "limit reached"
+                   else limits_fold lims now r (map_set d (spent + amt, start) st)
+               end
+      end
+  end.
+
+(* the decorator's bank-send part: [Ok None] nothing to store, [Ok (Some st)] the limit statuses to store *)
+Definition ante_bank (sg : acct) (to : Z) (cs : coins) (now : Z) : outcome (option smap) :=
   match a_set sg with
-  | None => Ok tt
+  | None => Ok None
   | Some st =>
       do _ <- (if s_en st then
                  match a_cust sg with
@@ -145,17 +211,31 @@ Definition ante_bank (sg : acct) (to : Z) : outcome unit :=
                  | Some w => if bool_at to w then Ok tt else Err "not in whitelist"
                  end
                else Ok tt);
-      (* the limit-status record is never written before it is dereferenced *)
-      if s_lim st then Panic "nil limit statuses" else Ok tt
+      if s_lim st then
+        if v_limits v then
+          do st' <- limits_fold (match a_lim sg with Some l => l | None => [] end) now cs
+                                (match a_stat sg with Some x => x | None => [] end);
+          Ok (Some st')
+        else Panic "nil limit statuses"      (* the limit-status record is never written before it is dereferenced *)
+      else Ok None
   end.
 
-Definition ante (s : state) (o : op) : outcome unit :=
+(* the decorator: checks, and for a bank send of an account with limits the new statuses *)
+Definition ante (s : state) (o : op) : outcome state :=
   let sg := getA s (signer o) in
   do _ <- match a_set sg with
           | Some st => if s_en st then ante_switch sg st o else Ok tt
           | None => Ok tt
           end;
-  match o with OBank _ to _ => ante_bank sg to | _ => Ok tt end.
+  match o with
+  | OBank _ to cs now =>
+      do r <- ante_bank sg to cs now;
+      match r with
+      | None => Ok s
+      | Some st' => Ok (setA s (signer o) (with_stat sg (Some st')))
+      end
+  | _ => Ok s
+  end.
 
 (* ---------------------------------------------------------------- handlers *)
 Definition resolve (sg : Z) (k : kp) : outcome Z :=
@@ -169,6 +249,12 @@ Definition set_key (s : state) (x : Z) (k : kp) : outcome state :=
   end.
 
 Definition rec_missing {A} : outcome A := Panic "nil transaction record".
+
+(* the key under which a vote is marked *)
+Definition mark_key (hraw : string) : string := if v_lower v then to_lower hraw else hraw.
+(* repaired variant: the sender of an approval / a decline must be a custodian of the target *)
+Definition voter_ok (T : acct) (f : Z) : bool :=
+  if v_cust_only v then match a_cust T with Some c => bool_at f c | None => false end else true.
 
 Definition handle (s : state) (o : op) : outcome state :=
   match o with
@@ -185,10 +271,11 @@ Definition handle (s : state) (o : op) : outcome state :=
       Ok (setA s x (with_set (getA s x) None))
   | OAdd w sg adds k =>
       do x <- resolve sg k;
-      (* a stored record whose map is empty is read back with a nil map: assigning into it panics *)
-      match lst_of w (getA s x), adds with
-      | Some [], _ :: _ => Panic "assignment to entry in nil map"
-      | cur, _ =>
+      (* a stored record whose map is empty is read back with a nil map: assigning into it panics
+         (unless repaired) *)
+      match lst_of w (getA s x), adds, v_nilmap v with
+      | Some [], _ :: _, false => Panic "assignment to entry in nil map"
+      | cur, _, _ =>
           let cur := match cur with Some l => l | None => [] end in
           let l' := fold_left (fun l z => map_set z true l) adds cur in
           do s1 <- set_key s x k;
@@ -209,9 +296,9 @@ Definition handle (s : state) (o : op) : outcome state :=
       Ok (setA s1 x (with_lst w (getA s1 x) None))
   | OAddLim sg d amt lim k =>
       do x <- resolve sg k;
-      match a_lim (getA s x) with
-      | Some [] => Panic "assignment to entry in nil map"
-      | cur =>
+      match a_lim (getA s x), v_nilmap v with
+      | Some [], false => Panic "assignment to entry in nil map"
+      | cur, _ =>
           let cur := match cur with Some l => l | None => [] end in
           do s1 <- set_key s x k;
           Ok (setA s1 x (with_lim (getA s1 x) (Some (map_set d (amt, lim) cur))))
@@ -231,7 +318,7 @@ Definition handle (s : state) (o : op) : outcome state :=
       do s1 <- set_key s x k;
       Ok (setA s1 x (with_lim (getA s1 x) None))
   | OSend sg to amt pw rew h =>
-      if amt <=? 0 then Err "invalid coins" else
+      if negb (coins_ok amt) then Err "invalid coins" else
       let a := getA s sg in
       do pooled <- match a_set a with
                    | None => Ok false
@@ -246,18 +333,20 @@ Definition handle (s : state) (o : op) : outcome state :=
       if pooled then Ok (setA s sg (with_pool a (Some [(h, mkTx to amt pw rew 0 false)])))
       else send s sg to amt
   | OApprove f t hraw =>
-      match mark_get f t hraw (marks s) with
+      let T := getA s t in
+      if negb (voter_ok T f) then Err "not a custodian" else
+      match mark_get f t (mark_key hraw) (marks s) with
       | Some _ => Ok s
       | None =>
           let h := to_lower hraw in
-          let T := getA s t in
           match a_pool T with None => rec_missing | Some p =>
           match pool_get h p with None => rec_missing | Some tx =>
           match a_cust T with None => Panic "nil custodians" | Some c =>
           let n := map_len c in
-          match t_rew tx with [] => Panic "index out of range" | r0 :: _ =>
+          match t_rew tx with [] => Panic "index out of range" | (rd, r0) :: _ =>
           if n =? 0 then Panic "division by zero" else
-          let rw := Z.quot r0 n in
+          if Z.quot r0 n <? 0 then Panic "negative coin amount" else
+          let rw := one_coin rd (Z.quot r0 n) in
           let v' := t_votes tx + 1 in
           let allowC := match a_set T with
                         | Some st => if s_en st && (0 <? n) then s_mode st <=? Z.quot (v' * 100) n else true
@@ -266,7 +355,7 @@ Definition handle (s : state) (o : op) : outcome state :=
                         | Some st => if s_pwd st then t_conf tx else true
                         | None => true end in
           do s1 <- send s t f rw;
-          let s2 := add_mark s1 f t hraw 1 in
+          let s2 := add_mark s1 f t (mark_key hraw) 1 in
           if allowC && allowP then
             do s3 <- send s2 t (t_to tx) (t_amt tx);
             Ok (store_pool s3 t (pool_del h p))
@@ -274,11 +363,12 @@ Definition handle (s : state) (o : op) : outcome state :=
           end end end end
       end
   | ODecline f t hraw =>
-      match mark_get f t hraw (marks s) with
+      let T := getA s t in
+      if negb (voter_ok T f) then Err "not a custodian" else
+      match mark_get f t (mark_key hraw) (marks s) with
       | Some _ => Ok s
       | None =>
           let h := to_lower hraw in
-          let T := getA s t in
           match a_set T with None => Ok s | Some st =>
           if negb (s_en st) then Ok s else
           match a_cust T with None => Panic "nil custodians" | Some c =>
@@ -286,14 +376,18 @@ Definition handle (s : state) (o : op) : outcome state :=
           if n =? 0 then Ok s else
           match a_pool T with None => Ok s | Some p =>
           match pool_get h p with None => Ok s | Some tx =>
-          match t_rew tx with [] => Panic "index out of range" | r0 :: _ =>
-          send (add_mark s f t hraw (-1)) t f (Z.quot r0 n)
+          match t_rew tx with [] => Panic "index out of range" | (rd, r0) :: _ =>
+          if Z.quot r0 n <? 0 then Panic "negative coin amount" else
+          send (add_mark s f t (mark_key hraw) (-1)) t f (one_coin rd (Z.quot r0 n))
           end end end end end
       end
-  | OConfirm f t hraw _ _ =>
+  | OConfirm f t hraw pw _ =>
       let h := to_lower hraw in
       let T := getA s t in
-      let rec' := match a_pool T with Some p => option_map (fun r => tx_conf r true) (pool_get h p) | None => None end in
+      let rec0 := match a_pool T with Some p => pool_get h p | None => None end in
+      (* repaired variant: the password given must be the one of the request *)
+      if (match rec0 with Some r => v_pwd v && negb (String.eqb pw (t_pw r)) | None => false end) then Err "wrong password" else
+      let rec' := option_map (fun r => tx_conf r true) rec0 in
       do allowC <- match a_set T with
                    | Some st => if s_en st then
                                   match a_cust T with
@@ -318,16 +412,16 @@ Definition handle (s : state) (o : op) : outcome state :=
           else Ok (store_pool s t (pool_set h r p))
       | _, _ => rec_missing
       end
-  | OBank sg to amt => if amt <=? 0 then Err "invalid coins" else send s sg to amt
-  | OMulti sg to amt => if amt <=? 0 then Err "invalid coins" else send s sg to amt
+  | OBank sg to amt _ => if negb (coins_ok amt) then Err "invalid coins" else send s sg to amt
+  | OMulti sg to amt => if negb (coins_ok amt) then Err "invalid coins" else send s sg to amt
   end.
 
-(* one transaction: ante, then the handler; atomically *)
-Definition step (s : state) (o : op) : outcome state := do _ <- ante s o; handle s o.
+(* one transaction: the decorator, then the handler; atomically *)
+Definition step (s : state) (o : op) : outcome state := do s1 <- ante s o; handle s1 o.
 Definition exec (s : state) (o : op) : state := match step s o with Ok s' => s' | _ => s end.
 Definition run (s : state) (ops : list op) : state := fold_left exec ops s.
 
 End Model.
 
-Definition init_state (bals : list Z) : state :=
+Definition init_state (bals : list coins) : state :=
   mkSt (combine (map Z.of_nat (seq 0 (List.length bals))) (map (fun b => with_bal empty_acct b) bals)) [].
